@@ -972,7 +972,13 @@ def run(ctx: C.Ctx):
                 'Literal-typed fields with values the type rejects (ParseError outcomes; the model follows the state through a class '
                 'cut at the failing field), dotenv files / secrets directories edited between instantiations (files of a '
                 'Meta.env_file excepted), the same _env_file selection passed repeatedly, and a failure-then-recovery family '
-                '(ParseError / MissingVars, repair spelled at any lookup tier, re-instantiation of the class and its sibling).')
+                '(ParseError / MissingVars, repair spelled at any lookup tier, re-instantiation of the class and its sibling). '
+                'Values are PRESENT BUT EMPTY in half of the histories (os.environ, dotenv `KEY=`, empty secrets file, keyword), and an '
+                'explicit-mapping family maps most fields to 1-3 variables whose values are empty about half of the time. '
+                'CONVERSION (c18_conv.py): Dict / DefaultDict / TypedDict / nested-dataclass / Optional[Dict] fields fed from os.environ, a '
+                'dotenv file, a secrets file or a str keyword, in the `k=v, k=v` shorthand or JSON form, values drawn from an alphabet '
+                'with "=" ":" "?" "/" "&" blanks (JSON form: also ","): result vs the documented reading (pairs cut at their FIRST "=", '
+                'stripped, value converted by the value type) and vs the Lean EnvLoader model.')
     quirks, probes = probe_quirks()
     ctx.notes['quirks_probed'] = quirks
     ctx.trusted += ['C18: python-dotenv parses `KEY=value` lines and Path.read_text returns the secret file content verbatim (overlay '
@@ -1008,7 +1014,10 @@ def run(ctx: C.Ctx):
         idxs.clear()
 
     import time
+    from harness.props import c18_conv
     for i in range(ndirected + n):
+        if ctx.only is not None and ctx.only >= c18_conv.CONV_BASE:
+            break                       # replay of a case of the conversion stream
         if ctx.done(i) or (i >= ndirected and ctx.only is None and time.time() - ctx.t0 > budget):
             ctx.notes['stopped_at'] = i
             break
@@ -1042,3 +1051,6 @@ def run(ctx: C.Ctx):
                 pref = [[n, ([e[0], sorted(set(e[1]))] if e[0] == 'oneof' else e)] for n, e in io['pyref']]
                 ctx.agree('ref', tag, pref, mref)
                 ctx.agree('meets', tag, meets(io['out'], [(n, e) for n, e in io['pyref']]), mo['meets'])
+    # ---- the conversion clause for mapping-like field types (values containing the separators), all four sources
+    from harness.props import c04_engines
+    c18_conv.run(ctx, c04_engines)
